@@ -2,7 +2,7 @@
     implementation's observation is compared with the model ([m_ok]), checked
     against the executable spec ([s_ok]) and classified ([cls]). *)
 From Coq Require Import String Ascii List Bool Arith NArith ZArith.
-From Raven Require Import Base.GoStr Base.GoStrB64 Base.GoStrJson Spec.Json Model.Auth Spec.AuthSpec.
+From Raven Require Import Base.GoStr Base.GoStrB64 Base.GoStrJson Spec.Json Model.CmdTokenizer Model.Auth Spec.CmdArgs Spec.AuthSpec.
 Import ListNotations.
 
 Definition reply_eqb (a b : reply) : bool :=
@@ -33,13 +33,8 @@ Definition out_eqb (b : outcome) (m obs : auth_out) : bool :=
   && (is_refused b || lstr_eqb (sent m) (sent obs))
   && orow_eqb (bound m) (bound obs).
 
-(** 0 = no class; 3 = finding class login_tokens; 9 = outside the stated
+(** 0 = no class (C04 has no finding class left); 9 = outside the stated
     domain (address or password not valid UTF-8: encoding/json substitutes U+FFFD) *)
-Definition finding_code (f : option finding) : nat :=
-  match f with
-  | None => 0
-  | Some F_login_tokens => 3
-  end.
 Definition domain_code (d u p : str) : nat := if in_domain d u p then 0 else 9.
 
 Definition res := (bool * bool * nat)%type.
@@ -87,7 +82,12 @@ Definition no_tls_b (tls : bool) (obs : auth_out) : bool :=
 
 (** LOGIN over a connection *)
 Record wcase := mk_wcase { wc_tls : bool; wc_d : str; wc_tag : str; wc_line : str; wc_b : outcome;
-  wc_intended : option (astring_form * astring_form * str * str); wc_obs : auth_out }.
+  wc_intended : option (arg_form * arg_form * str * str); wc_obs : auth_out }.
+
+(** the intended credentials count only when they can be written that way: an
+    atom has no blank, quote or backslash and is not empty *)
+Definition intended_wf (i : arg_form * arg_form * str * str) : bool :=
+  let '(fu, fp, u, p) := i in arg_ok (fu, u) && arg_ok (fp, p).
 Definition wcase_eval (c : wcase) : res :=
   let m := run_creds (wc_d c) (login_creds false (wc_tls c) (wc_line c)) (wc_b c) ensure_ok true in
   (out_eqb (wc_b c) m (wc_obs c)
@@ -96,15 +96,13 @@ Definition wcase_eval (c : wcase) : res :=
       | None => true
       end,
    match wc_intended c with
-   | Some (_, _, u, p) => imap_spec_b (wc_d c) u p (accepted (wc_b c)) (wc_obs c)
+   | Some (fu, fp, u, p) =>
+       if intended_wf (fu, fp, u, p) then imap_spec_b (wc_d c) u p (accepted (wc_b c)) (wc_obs c)
+       else safety_b (accepted (wc_b c)) (wc_obs c)
    | None => safety_b (accepted (wc_b c)) (wc_obs c)
    end && no_tls_b (wc_tls c) (wc_obs c),
    match wc_intended c with
-   | Some (fu, fp, u, p) =>
-       match classify_login fu fp u p with
-       | Some f => finding_code (Some f)
-       | None => domain_code (wc_d c) u p
-       end
+   | Some (fu, fp, u, p) => if intended_wf (fu, fp, u, p) then domain_code (wc_d c) u p else 0
    | None => 0
    end).
 
